@@ -95,13 +95,16 @@ def replay(case):
                 idp.parse_authn_request(sb.b64(req), env.BINDING_POST)
             except Exception:
                 pass
+        opts = dict(sign_response=scn['signResp'], sign_assertion=scn['signAssert'], encrypt_assertion=True,
+                    encrypted_advice_attributes=scn['advice'], encrypt_assertion_self_contained=scn['selfContained'])
+        if scn.get('via') == 'config':
+            idp = spc.idp_for(**opts)          # the options stand in the configuration, the call names none of them
+            opts = {}
         try:
             res = idp.create_authn_response(
                 {'givenName': ['secret-given-é'], 'surName': ['secret-sn']}, 'id1', env.SP_ACS_POST, env.SP,
                 name_id=NameID(format=NAMEID_FORMAT_TRANSIENT, text='secret-subject'),
-                sign_response=scn['signResp'], sign_assertion=scn['signAssert'], encrypt_assertion=True,
-                encrypted_advice_attributes=scn['advice'], encrypt_assertion_self_contained=scn['selfContained'],
-                pefim=scn['pefim'], authn={'class_ref': sb.PASSWORD, 'authn_auth': 'x'})
+                pefim=scn['pefim'], authn={'class_ref': sb.PASSWORD, 'authn_auth': 'x'}, **opts)
             doc = str(res)
         except Exception as exc:
             out['built'] = False
